@@ -25,6 +25,7 @@ def check(run):
     chain(run, p)
     dkeys(run, p)
     types(run, p)
+    isolang(run, p)
     from .common import nocache_rule
     nocache_rule(run, 'C16-NOCACHE', p, ['tdda.serial.reader', 'tdda.serial.csvw', 'tdda.serial.pandasio', 'tdda.serial.base'],
                  'metadata is read from the file each time it is needed: no memoising decorator and no class-level container used as a cache '
@@ -142,3 +143,40 @@ def types(run, p):
     ok = ok and bool(df) and "startswith('date')" in norm(df[0].value)
     run.ob('C16-TYPES', 'nodate', ok, 'the dtype mapping skips every field whose metadata type starts with "date"', fn=f)
     run.floor('C16-TYPES', 2 + len(SPEC_TYPES), 9)
+
+
+# strptime formats that mean ISO 8601 text as pandas' ISO parser reads it: year-month-day with dashes, then optionally
+# T or space, hours:minutes with colons, optionally :seconds, optionally a fraction introduced by a dot
+ISO_SPEC = r'^%Y-%m-%d([T ]%H:%M(:%S([.]%f)?)?)?$'
+
+
+def isolang(run, p):
+    from .. import reglang
+    run.rule('C16-ISOLANG', 'a translated format is replaced by the label ISO8601 (and its own parsing format discarded) only when it '
+                            'really is ISO 8601: the language of RE_ISO8601, as a set of strptime formats, is included in '
+                            '%Y-%m-%d[(T| )%H:%M[:%S[.%f]]] - decided by product construction on the two automata - and it still '
+                            'accepts the plain date and the seconds-resolution forms')
+    try:
+        iso = p.const('tdda.serial.base', 'RE_ISO8601')
+    except AnalysisError:
+        raise AnalysisError('RE_ISO8601 vanished')
+    if not isinstance(iso, str) or not reglang.parses(iso):
+        raise AnalysisError('RE_ISO8601 does not fold to a regular expression: %r' % (iso,))
+    alphabet = sorted(set('%YmdHMSf-: T./,x0') | {c for c in iso if c.isalnum() or c in '-:/., '})
+    try:
+        w = reglang.not_included(iso, [ISO_SPEC], alphabet)
+    except reglang.Unsupported as e:
+        raise AnalysisError('RE_ISO8601 uses a construct outside the regular-language toolkit: %s' % e)
+    m = p.mod('tdda.serial.base')
+    run.ob('C16-ISOLANG', 'tdda/serial/base.py::RE_ISO8601::included', w is None,
+           'every format RE_ISO8601 accepts is ISO 8601' if w is None else
+           'RE_ISO8601 accepts %r, which is not an ISO 8601 layout: that format would be labelled ISO8601 and its real layout lost' % w,
+           rel=m.rel, line=m.consts['RE_ISO8601'].lineno)
+    musts = ['%Y-%m-%d', '%Y-%m-%dT%H:%M:%S', '%Y-%m-%d %H:%M:%S', '%Y-%m-%d %H:%M:%S.%f']
+    for s in musts:
+        lit = '^' + re.escape(s) + '$'
+        miss = reglang.not_included(lit, [iso], alphabet)
+        run.ob('C16-ISOLANG', 'tdda/serial/base.py::RE_ISO8601::accepts %s' % s, miss is None,
+               'RE_ISO8601 %s %s' % ('accepts' if miss is None else 'no longer accepts', s), rel=m.rel,
+               line=m.consts['RE_ISO8601'].lineno, nontrivial=False)
+    run.floor('C16-ISOLANG', 1 + len(musts), 5)
